@@ -95,15 +95,15 @@ func inRanges(p uint16, rs []oracle.PortRange) bool {
 
 // c03peer builds the reaction to one probe.
 type c03peer struct {
-	s       *c03spec
-	rng     *rand.Rand
-	link    oracle.Link
-	subnet  *oracle.CIDR
-	ports   []oracle.PortRange // all ranges given (nil: none given)
-	mu      sync.Mutex
-	inj     []c03inj
-	budget  int
-	srcIP   [4]byte
+	s      *c03spec
+	rng    *rand.Rand
+	link   oracle.Link
+	subnet *oracle.CIDR
+	ports  []oracle.PortRange // all ranges given (nil: none given)
+	mu     sync.Mutex
+	inj    []c03inj
+	budget int
+	srcIP  [4]byte
 }
 
 func (p *c03peer) wrap(ipb []byte) []byte {
@@ -405,112 +405,126 @@ func scenC03(run *vlab.Run, sx, tmp string) {
 			continue
 		}
 		run.Case(fmt.Sprintf("c03w%04d", i), s)
-		peer := &c03peer{s: s, rng: rand.New(rand.NewSource(s.Seed)), link: oLink(s.Link), budget: 250, srcIP: foreignSrc}
-		if s.Subnet != "" {
-			c, _ := oracle.RefTarget(s.Subnet)
-			peer.subnet = &c
-		}
-		if s.Ports != "" {
-			peer.ports, _ = oracle.RefPortList(s.Ports)
-		}
-		args, stdin := wireArgs(tmp, &s.wireSpec)
-		dev := devName(s.Link)
-		spec := &CaseSpec{Args: args, Stdin: stdin, Setup: commonWorld(s.Link), Timeout: 90 * time.Second,
-			OnTx: func(c *CaseRun, d *Dev, frame []byte) {
-				if d.Name != dev {
-					return
-				}
-				dec, a, port, ok := decodeProbe(s.Kind, frame, oLink(s.Link))
-				if !ok {
-					return
-				}
-				for _, in := range peer.react(dec, frame, a, port) {
-					c.Inject(d, in.frame)
-				}
-			}}
-		res := RunCase(sx, spec)
-		run.Eval(1)
-		desc := map[string]interface{}{"spec": s, "argv": strings.Join(args, " ")}
-		if !baseChecks(run, res, desc, true) {
-			continue
-		}
-		// expected records
-		exp := map[string]int{}
-		classOf := map[string]string{}
-		nExp, nNot := 0, 0
-		byClass := map[string]int{}
-		for _, in := range peer.inj {
-			byClass[in.class]++
-			if in.expect {
-				exp[in.rec]++
-				classOf[in.rec] = in.class
-				nExp++
-			} else {
-				nNot++
+		// a missing record is an upper bound for sx (it has to get to the frame before its exit timer fires): it is
+		// judged on up to three runs of the same scenario; a spurious record is judged at once
+		for attempt := 0; attempt < 3; attempt++ {
+			retry := false
+			peer := &c03peer{s: s, rng: rand.New(rand.NewSource(s.Seed)), link: oLink(s.Link), budget: 250, srcIP: foreignSrc}
+			if s.Subnet != "" {
+				c, _ := oracle.RefTarget(s.Subnet)
+				peer.subnet = &c
 			}
-		}
-		got := map[string]int{}
-		for _, l := range res.Stdout {
-			rec, err := parseRecord(strings.TrimSpace(l))
-			if err != nil {
-				run.Violation("unparseable-record", fmt.Sprintf("stdout line is not a record: %.200q (%v)", l, err), desc)
+			if s.Ports != "" {
+				peer.ports, _ = oracle.RefPortList(s.Ports)
+			}
+			args, stdin := wireArgs(tmp, &s.wireSpec)
+			dev := devName(s.Link)
+			spec := &CaseSpec{Args: args, Stdin: stdin, Setup: commonWorld(s.Link), Timeout: 90 * time.Second,
+				OnTx: func(c *CaseRun, d *Dev, frame []byte) {
+					if d.Name != dev {
+						return
+					}
+					dec, a, port, ok := decodeProbe(s.Kind, frame, oLink(s.Link))
+					if !ok {
+						return
+					}
+					for _, in := range peer.react(dec, frame, a, port) {
+						c.Inject(d, in.frame)
+					}
+				}}
+			res := RunCase(sx, spec)
+			run.Eval(1)
+			desc := map[string]interface{}{"spec": s, "argv": strings.Join(args, " ")}
+			if !baseChecks(run, res, desc, true) {
+				break
+			}
+			// expected records
+			exp := map[string]int{}
+			classOf := map[string]string{}
+			nExp, nNot := 0, 0
+			byClass := map[string]int{}
+			for _, in := range peer.inj {
+				byClass[in.class]++
+				if in.expect {
+					exp[in.rec]++
+					classOf[in.rec] = in.class
+					nExp++
+				} else {
+					nNot++
+				}
+			}
+			got := map[string]int{}
+			for _, l := range res.Stdout {
+				rec, err := parseRecord(strings.TrimSpace(l))
+				if err != nil {
+					run.Violation("unparseable-record", fmt.Sprintf("stdout line is not a record: %.200q (%v)", l, err), desc)
+					continue
+				}
+				got[rec]++
+			}
+			cmdKey := strings.Join(s.Cmd, "-") + "/" + s.Link
+			ok := true
+			var keys []string
+			for r := range got {
+				keys = append(keys, r)
+			}
+			sort.Strings(keys)
+			for _, r := range keys {
+				if got[r] > exp[r] {
+					ok = false
+					why := "no injected frame has that shape"
+					if exp[r] > 0 {
+						why = fmt.Sprintf("%d such frames were injected", exp[r])
+					}
+					run.Violation("spurious-record:"+cmdKey, fmt.Sprintf("record %q printed x%d; %s (%d reply-shaped and %d other frames injected): %s", r, got[r], why, nExp, nNot, strings.Join(args, " ")),
+						map[string]interface{}{"case": desc, "injected_by_class": byClass, "stdout": tailStr(strings.Join(res.Stdout, ""), 3000)})
+				}
+			}
+			for r, n := range exp {
+				if got[r] < n {
+					if res.Stall > 150*time.Millisecond {
+						run.Inconclusive(fmt.Sprintf("missing record but the monitor stalled %v", res.Stall))
+						ok = false
+						break
+					}
+					ok = false
+					if attempt < 2 {
+						retry = true
+						run.Count("missing_record_runs_retried", 1)
+						break
+					}
+					run.Violation("reply-not-reported:"+cmdKey+":"+classOf[r], fmt.Sprintf("reply-shaped frame (class %s) %q injected x%d right after its probe, reported x%d: %s", classOf[r], r, n, got[r], strings.Join(args, " ")),
+						map[string]interface{}{"case": desc, "injected_by_class": byClass, "stdout": tailStr(strings.Join(res.Stdout, ""), 2000)})
+				}
+			}
+			if retry {
 				continue
 			}
-			got[rec]++
-		}
-		cmdKey := strings.Join(s.Cmd, "-") + "/" + s.Link
-		ok := true
-		var keys []string
-		for r := range got {
-			keys = append(keys, r)
-		}
-		sort.Strings(keys)
-		for _, r := range keys {
-			if got[r] > exp[r] {
-				ok = false
-				why := "no injected frame has that shape"
-				if exp[r] > 0 {
-					why = fmt.Sprintf("%d such frames were injected", exp[r])
-				}
-				run.Violation("spurious-record:"+cmdKey, fmt.Sprintf("record %q printed x%d; %s (%d reply-shaped and %d other frames injected): %s", r, got[r], why, nExp, nNot, strings.Join(args, " ")),
-					map[string]interface{}{"case": desc, "injected_by_class": byClass, "stdout": tailStr(strings.Join(res.Stdout, ""), 3000)})
+			if ok {
+				run.Count("c03_runs_matched", 1)
 			}
-		}
-		for r, n := range exp {
-			if got[r] < n {
-				if res.Stall > 150*time.Millisecond {
-					run.Inconclusive(fmt.Sprintf("missing record but the monitor stalled %v", res.Stall))
-					ok = false
-					break
-				}
-				ok = false
-				run.Violation("reply-not-reported:"+cmdKey+":"+classOf[r], fmt.Sprintf("reply-shaped frame (class %s) %q injected x%d right after its probe, reported x%d: %s", classOf[r], r, n, got[r], strings.Join(args, " ")),
-					map[string]interface{}{"case": desc, "injected_by_class": byClass, "stdout": tailStr(strings.Join(res.Stdout, ""), 2000)})
+			run.Count("c03_runs", 1)
+			run.Count("c03_cmd:"+s.Scan, 1)
+			run.Count("c03_link:"+s.Link, 1)
+			run.Count("frames_injected_reply_shaped", int64(nExp))
+			run.Count("frames_injected_not_reply_shaped", int64(nNot))
+			run.Count("records_matched", int64(len(res.Stdout)))
+			for c, n := range byClass {
+				run.Count("class:"+c, int64(n))
 			}
-		}
-		if ok {
-			run.Count("c03_runs_matched", 1)
-		}
-		run.Count("c03_runs", 1)
-		run.Count("c03_cmd:"+s.Scan, 1)
-		run.Count("c03_link:"+s.Link, 1)
-		run.Count("frames_injected_reply_shaped", int64(nExp))
-		run.Count("frames_injected_not_reply_shaped", int64(nNot))
-		run.Count("records_matched", int64(len(res.Stdout)))
-		for c, n := range byClass {
-			run.Count("class:"+c, int64(n))
-		}
-		if s.NRanges > 200 {
-			run.Count("c03_chunked_runs", 1)
-		}
-		if s.Mode != "subnet" {
-			run.Count("c03_file_mode_runs", 1)
-		}
-		if nExp+nNot > 0 {
-			run.Distinct(strings.Join(args, " ") + fmt.Sprint(s.Seed))
-		}
-		if run.WantSample() && nExp > 3 && nNot > 3 {
-			run.Sample(map[string]interface{}{"argv": tailStr(strings.Join(args, " "), 160), "injected_by_class": byClass, "records": len(res.Stdout)})
+			if s.NRanges > 200 {
+				run.Count("c03_chunked_runs", 1)
+			}
+			if s.Mode != "subnet" {
+				run.Count("c03_file_mode_runs", 1)
+			}
+			if nExp+nNot > 0 {
+				run.Distinct(strings.Join(args, " ") + fmt.Sprint(s.Seed))
+			}
+			if run.WantSample() && nExp > 3 && nNot > 3 {
+				run.Sample(map[string]interface{}{"argv": tailStr(strings.Join(args, " "), 160), "injected_by_class": byClass, "records": len(res.Stdout)})
+			}
+			break
 		}
 	}
 }
